@@ -191,6 +191,10 @@ func (x *Exec) applySpec(st *State, fs *FuncSpec, names []string, args []Val, si
 	}
 	// caller-side obligations attached to this call label
 	if ocs := x.spec.OnCall[cc.label]; len(ocs) > 0 {
+		if x.oncallSeen == nil {
+			x.oncallSeen = map[string]bool{}
+		}
+		x.oncallSeen[cc.label] = true
 		cvars := x.scopeVars(st, st.frames[0])
 		for n, v := range vars {
 			cvars["a_"+n] = v // the call's arguments, by the callee's parameter names
